@@ -386,7 +386,42 @@ HarmB ==
            \cup {Harm("Polyline", "segment extension line", Pol(SquareV(A), g[1], g[2], 3), <<2 * A + 200, 2 * A, 0>>, 1)}
            : g \in HarmPoses} : A \in IF Thorough THEN {100, 500} ELSE {500}}
 HarmPts == HarmB \cup {HarmH(i) : i \in HarmB}
-Candidates == IF Prop = "C14" THEN C14Flux \cup C14CircChart \cup CartLk \cup CartBig \cup ThinCells ELSE C01Cells \cup C01Points \cup ThinCells \cup HarmPts
+(* ============================================================ several sources in ONE field call; wires given in site coordinates (C14 and C01) *)
+(* Flux and circulation are linear: the right-hand sides add (0 resp. the sum of I*Lk over all sources).  The scene is evaluated as one     *)
+(* Collection, so grouping / tiling inside the field wrapper and the core functions is part of what is measured.                          *)
+MeshD(dim, R, p, pol) == Src("TriangularMesh", R, p, dim, pol, <<>>)
+TallM == MeshD(<<8, 12, 16>>, IdM, Zero3, P1)
+ShortM == MeshD(<<8, 12, 8>>, IdM, <<14, 0, 0>>, P2)           \* same footprint and face count, different height
+TallC == Src("Cuboid", IdM, Zero3, <<8, 12, 16>>, P1, <<>>)
+PairScenes == {<<TallM, ShortM>>, <<ShortM, TallM>>, <<TallC, ShortM>>, <<ShortM, TallC>>,
+               <<TallM, ShortM, Cir(1, Rx90, <<7, 0, 12>>, 2)>>, <<MeshD(<<8, 12, 8>>, Rz90, <<0, 0, 20>>, P3), TallM, ShortM>>}
+PairCells == {<<"inside the tall body, across the height of the short one", <<<<-1, 2>>, <<-1, 2>>, <<3, 6>>>>>>,
+              <<"across the top face of the short body", <<<<13, 16>>, <<-1, 2>>, <<3, 6>>>>>>,
+              <<"inside the short body", <<<<13, 16>>, <<-1, 2>>, <<-1, 2>>>>>>,
+              <<"across the top face of the tall body", <<<<-1, 2>>, <<1, 4>>, <<7, 10>>>>>>,
+              <<"across facing side faces of both bodies", <<<<3, 11>>, <<-1, 4>>, <<-1, 4>>>>>>,
+              <<"between the bodies", <<<<5, 9>>, <<-1, 2>>, <<-1, 2>>>>>>,
+              <<"enclosing both bodies", <<<<-9, 23>>, <<-11, 12>>, <<-13, 14>>>>>>}
+FluxPairs == {NamedBox(Nm(sc[1].cls \o "+" \o sc[2].cls, "two bodies in one call", q[1]), sc, Id0, q[2]) : sc \in PairScenes, q \in PairCells}
+\* two wires in one call: loops threading the first, the second, both
+TwoWires == {<<Pol(SquareV(1), IdM, Zero3, 3), Pol(SquareV(1), IdM, <<0, 0, 2>>, -2)>>, <<Pol(SquareV(1), IdM, <<0, 0, 2>>, -2), Pol(SquareV(1), IdM, Zero3, 3)>>,
+             <<Pol(SquareV(1), IdM, Zero3, 3), Pol(StepV(1), IdM, <<0, 0, 4>>, 1), Cir(1, IdM, <<0, 0, -2>>, 2)>>}
+CircPairs == {Circ(Nm("Polyline+Polyline", "two wires in one call", "loop around one / both"), sc, Id0, RectLoop(2, 1, a[1], a[2], 1, 7)) : sc \in TwoWires, a \in {<<-1, 1>>, <<-1, 3>>, <<1, 3>>, <<-3, 5>>}}
+\* wires given in site coordinates: local vertices = loop + a large offset O, position = -R O (the loop sits where it was); sides cut into short collinear segments
+Shifted(v, O) == [i \in DOMAIN v |-> Add3(v[i], O)]
+SitePol(v, O, R, I) == Pol(Shifted(v, O), R, Neg3(MulMV(R, O)), I)
+SubSquareV(A) == <<<<2 * A, 2 * A, 0>>, <<A, 2 * A, 0>>, <<0, 2 * A, 0>>, <<-A, 2 * A, 0>>, <<-2 * A, 2 * A, 0>>, <<-2 * A, A, 0>>, <<-2 * A, 0, 0>>, <<-2 * A, -A, 0>>, <<-2 * A, -2 * A, 0>>,
+                   <<-A, -2 * A, 0>>, <<0, -2 * A, 0>>, <<A, -2 * A, 0>>, <<2 * A, -2 * A, 0>>, <<2 * A, -A, 0>>, <<2 * A, 0, 0>>, <<2 * A, A, 0>>, <<2 * A, 2 * A, 0>>>>
+SiteOffsets == {<<1000000, 1000000, 0>>, <<1000000, 0, 0>>, <<0, -400000, 300000>>}
+SiteWires == {SitePol(SubSquareV(2), O, R, 3) : O \in SiteOffsets, R \in {IdM, Rz90}} \cup {SitePol(SquareV(2), O, IdM, -2) : O \in SiteOffsets}
+CircSite == {Circ(Nm("Polyline", "site coordinates (vertices 1e6 units from the local origin), short collinear segments", q[1]), <<s>>, Id0, q[2]) : s \in SiteWires,
+               q \in {<<"loop around the side y=+4", RectLoop(1, 1, 3, 7, -1, 1)>>, <<"loop around the side x=+4", RectLoop(2, 1, -1, 1, 3, 7)>>,
+                      <<"loop around the side y=-4", RectLoop(1, -1, -7, -3, -1, 1)>>, <<"loop around the side x=-4", RectLoop(2, -1, -1, 1, -7, -3)>>,
+                      <<"loop beside the wire", RectLoop(1, 1, 5, 9, -1, 1)>>}}
+FluxSite == {NamedBox(Nm("Polyline", "site coordinates (vertices 1e6 units from the local origin), short collinear segments", q[1]), <<s>>, Id0, q[2]) : s \in SiteWires,
+               q \in {<<"cell enclosing the wire", <<<<-9, 10>>, <<-9, 10>>, <<-5, 6>>>>>>, <<"cell beside one side", <<<<5, 9>>, <<-1, 3>>, <<1, 5>>>>>>}}
+MultiAndSite == FluxPairs \cup CircPairs \cup CircSite \cup FluxSite
+Candidates == IF Prop = "C14" THEN C14Flux \cup C14CircChart \cup CartLk \cup CartBig \cup ThinCells \cup MultiAndSite ELSE C01Cells \cup C01Points \cup ThinCells \cup HarmPts \cup MultiAndSite
 \* Conditioning of the measurement (not part of the premise; it only selects which instances are worth integrating with a
 \* fixed-order rule): the cell is not a thin slab, and a cell that touches a body is not much larger than the body
 \* (otherwise single quadrature pieces would span decades of the field's variation and the instance would be unmeasurable).
